@@ -85,7 +85,7 @@ class HashIds:
 
 DUMP_SQL = """
 SELECT n.kind, n.label, c.kind, c.label, n.detached, f.state, f.hash,
-       EXISTS (SELECT 1 FROM step_hash WHERE step_hash.node = n.i), s._implied_need, s.state
+       EXISTS (SELECT 1 FROM step_hash WHERE step_hash.node = n.i), s._implied_need, s.state, s.need
 FROM node AS n LEFT JOIN node AS c ON n.creator = c.i
 LEFT JOIN file AS f ON f.node = n.i LEFT JOIN step AS s ON s.node = n.i
 ORDER BY n.kind, n.label
@@ -95,7 +95,7 @@ ORDER BY n.kind, n.label
 def dump_graph(w, hids):
     from stepup.core.hash import FileHash
     nodes = []
-    for kind, label, ckind, clabel, det, fstate, fhash, shash, need, sstate in w.db.execute(DUMP_SQL):
+    for kind, label, ckind, clabel, det, fstate, fhash, shash, need, sstate, dneed in w.db.execute(DUMP_SQL):
         nodes.append({
             "key": (KIND[kind], label),
             "creator": None if ckind is None else (KIND[ckind], clabel),
@@ -105,6 +105,7 @@ def dump_graph(w, hids):
             "shash": bool(shash) and kind == "step",
             "need": need or 0,
             "sstate": sstate or 0,
+            "dneed": dneed or 0,       # step.need as declared (oracle only; the model reads _implied_need)
         })
     deps = []
     sql = ("SELECT a.kind, a.label, b.kind, b.label FROM dependency JOIN node AS a ON a.i = source "
@@ -338,7 +339,93 @@ class Builder:
             if vol:
                 self.ever_volatile.add(p)
 
+    def meta(self):
+        """What the scheduler does before it picks the next job: recompute the flagged metadata
+        (_safe, _implied_need / _tail_time, _ready).  Called wherever a build would have run."""
+        s = self.w.sched
+        s._update_meta_safe()
+        s._update_meta_after()
+        s._update_meta_ready()
+        self.log.append(["scheduler-meta-update"])
+
+    def product_info(self, creator):
+        """(static paths, [(StepInfo, need)]) of what `creator` currently declares."""
+        from stepup.core.file import File
+        from stepup.core.step import Step
+        statics = sorted(f.label for f in creator.products(File) if f.get_state().value in STATIC_STATES)
+        steps = []
+        for st in creator.products(Step):
+            need = self.w.db.execute("SELECT need FROM step WHERE node = ?", (st.i,)).fetchone()[0]
+            steps.append((st.get_info(), need))
+        return statics, steps
+
+    def declare_static(self, creator, p):
+        from stepup.core.enums import HashUpdateCause
+
+        def go():
+            unconfirmed = self.wf.declare_static_files(creator, [p])
+            self.wf.update_file_hashes({q: self.hash_of(q) for q in unconfirmed}, cause=HashUpdateCause.CONFIRMED)
+        ok = self.attempt(go, ["static", creator.label, p])
+        if ok:
+            self.statics.add(p)
+        return ok
+
+    def define(self, creator, command, inp=(), out=(), vol=(), need=None, workdir="."):
+        from stepup.core.enums import HashUpdateCause, Need
+        need = Need.DEFAULT if need is None else Need(need)
+
+        def go():
+            to_check = self.wf.define_step(creator, command, inp_paths=list(inp), out_paths=list(out),
+                                           vol_paths=list(vol), workdir=workdir, need=need)
+            if to_check:
+                self.wf.update_file_hashes({q: self.hash_of(q) for q in to_check}, cause=HashUpdateCause.CONFIRMED)
+        if not self.attempt(go, ["step", creator.label, command, workdir, list(inp), list(out), list(vol), need.name]):
+            return None
+        self.ever_output.update(list(out) + list(vol))
+        self.ever_volatile.update(vol)
+        label = command if workdir == "." else f"{command}  # wd={workdir}"
+        if label not in self.steps:
+            self.steps.append(label)
+        return self.find_step(label)
+
+    def rerun(self, creator, keep_static=lambda p: True, keep_step=lambda inf: True, change=lambda inf: inf):
+        """The script of `creator` was edited and runs again: reset_for_rerun, then it declares again what
+        the new script still declares (`change` may alter a kept step: a dict of define() keywords)."""
+        statics, steps = self.product_info(creator)
+        creator.reset_for_rerun()
+        self.log.append(["reset_for_rerun", creator.label])
+        for p in statics:
+            if keep_static(p):
+                self.declare_static(creator, p)
+        for inf, need in steps:
+            if not keep_step(inf):
+                continue
+            kw = {"command": inf.command, "inp": [str(x) for x in inf.inp], "out": [str(x) for x in inf.out],
+                  "vol": [str(x) for x in inf.vol], "need": need, "workdir": str(inf.workdir)}
+            kw = change(kw)
+            self.define(creator, **kw)
+        if creator.i != self.w.plan.i:
+            self.complete(creator)
+
     # -- whole scenarios ----------------------------------------------------------------------
+    def evolve(self, made, rounds=None):
+        """Several rounds of plan edits.  Between two rounds a build usually happens: the scheduler
+        recomputes its metadata and (often) the steps that are attached and pending run."""
+        from stepup.core.enums import StepState
+        from stepup.core.step import Step
+        rng = self.rng
+        rounds = rng.choice([1, 1, 2, 3]) if rounds is None else rounds
+        for r in range(rounds):
+            if r > 0:
+                if rng.random() < 0.8:
+                    self.meta()
+                if rng.random() < 0.7:
+                    for st in list(self.wf.nodes(Step)):
+                        if st.i != self.w.plan.i and st.get_state() != StepState.SUCCEEDED and rng.random() < 0.8:
+                            self.complete(st)
+                self.log.append(["next-round-of-plan-edits", r + 1])
+            self.drop_random(made)
+
     def grow(self, nsteps):
         rng = self.rng
         plan = self.w.plan
@@ -441,14 +528,14 @@ class Builder:
             for c in creators:
                 if c is None:
                     continue
-                info = []
-                for st in c.products(Step):
-                    inf = st.get_info()
-                    need = self.w.db.execute("SELECT need FROM step WHERE node = ?", (st.i,)).fetchone()[0]
-                    info.append((inf, need))
+                statics, info = self.product_info(c)
                 c.reset_for_rerun()
                 self.log.append(["reset_for_rerun", c.label])
                 from stepup.core.enums import Need
+                for p in statics:
+                    # the static() line survives the edit of the script, or it does not (the file stays on disk)
+                    if p != "plan.py" and rng.random() < 0.5:
+                        self.declare_static(c, p)
                 for inf, need in info:
                     if rng.random() < 0.5:
                         self.attempt(lambda inf=inf, need=need: self.wf.define_step(
@@ -556,8 +643,9 @@ def user_edits(b, rng, made):
     return edits
 
 
-async def disk_case(rng, guard, hids, witness=None):
-    """One complete scenario on a real tree.  guard in {"none", "targets", "incomplete", "no-clean"}."""
+async def disk_case(rng, guard, hids, witness=None, quiet=False):
+    """One complete scenario on a real tree.  guard in {"none", "targets", "incomplete", "no-clean"}.
+    `witness(b)` builds the project instead of the random generator; `quiet` skips the random user edits."""
     from stepup.core.enums import FileState, StepState
     from stepup.core.file import File
     from stepup.core.hash import StepHash
@@ -577,9 +665,10 @@ async def disk_case(rng, guard, hids, witness=None):
             else:
                 made = b.grow(rng.randint(2, 6))
                 b.complete_all(made)
+                b.meta()
                 b.outdate_some(made, prob=0.25)
-                b.drop_random(made)
-            edits = user_edits(b, rng, made)
+                b.evolve(made)
+            edits = {} if quiet else user_edits(b, rng, made)
             # everything still attached must have run, otherwise the build is incomplete
             leave_pending = guard == "incomplete"
             skipped = False
@@ -740,6 +829,28 @@ def held_nodes(graph):
     return {k for k in succ if k in anchors or reach_from([k]) & anchors}
 
 
+def unneeded_steps(graph):
+    """Attached steps declared OPTIONAL that no needed attached step consumes, directly or through other
+    optional steps (a step is needed when its declared need is above OPTIONAL or a needed attached step has one of
+    its outputs as input).  Only meaningful for builds without targets."""
+    steps = {n["key"]: n for n in graph["nodes"] if n["key"][0] == KIND["step"] and not n["det"]}
+    outs, cons = {}, {}
+    for a, b in graph["deps"]:
+        if a in steps and b[0] == KIND["file"]:
+            outs.setdefault(a, set()).add(b)
+        if b in steps and a[0] == KIND["file"]:
+            cons.setdefault(a, set()).add(b)
+    needed = {k for k, n in steps.items() if n.get("dneed", n["need"]) != 31}
+    changed = True
+    while changed:
+        changed = False
+        for k in steps:
+            if k not in needed and any(t in needed for f in outs.get(k, ()) for t in cons.get(f, ())):
+                needed.add(k)
+                changed = True
+    return set(steps) - needed
+
+
 def oracle_c07(res):
     """Violations of C07 visible in one successful unrestricted finalize with cleaning."""
     out = []
@@ -751,7 +862,9 @@ def oracle_c07(res):
     held = held_nodes(g0)
     after_keys = {n["key"] for n in res["after_graph"]["nodes"]}
     after_nodes = _nodes_by_path(res["after_graph"])
-    optional = {n["key"] for n in g0["nodes"] if n["key"][0] == KIND["step"] and not n["det"] and n["need"] == 31}
+    # which optional steps are not needed is decided here from the DECLARED need and the edges, not from the
+    # scheduler's step._implied_need (which the code under test maintains incrementally)
+    optional = unneeded_steps(g0)
     reverted = {b for a, b in g0["deps"] if a in optional}
     for n in g0["nodes"]:
         if n["key"][0] != KIND["file"] or n["fstate"] not in (16, 17, 18):
@@ -807,50 +920,111 @@ def e3_available():
         return False
 
 
-def e3_histories(rng, n, seed_base):
-    """Run n generated histories; yield per build a record for the oracles."""
-    from . import e3, e3_gen
+def e3_run_case(project, history, seed, family="e3_gen", info=None, vary=True):
+    """Run one history phase by phase through the real serve(); one record per build for the oracles.
+
+    Between builds the *user* sometimes overwrites files StepUp wrote (never through the project
+    description), and builds are sometimes run with --no-clean or restricted to a target (`vary`).
+    All of that is drawn from random.Random(seed), so a record is reproducible from (family, seed) --
+    or from the project/history stored in the witness -- alone.  Directories that commands create
+    for their outputs (`mkdir -p` inside the command) are made before each build."""
+    import random
+
+    from . import clean_e3gen, e3
+    trng = random.Random(1000003 * seed + 17)
     records = []
-    for k in range(n):
-        seed = seed_base + k
-        project, history = e3_gen.gen_case(seed, max_phases=4)
-        project = project.clone()
-        with tempfile.TemporaryDirectory(prefix="verif-clean-e3-") as root:
-            project.materialise(root)
-            owned = {}            # path -> digest of what a step command last wrote
-            prev_graph = {}
-            phases = [{"edits": []}] + history
-            for i, phase in enumerate(phases):
-                for edit in phase.get("edits", []):
-                    e3.apply_edit(project, root, edit)
-                tampered = []
-                # the user overwrites files StepUp wrote (not through the project description)
+    project = project.clone()
+    project0 = project.to_json()
+    with tempfile.TemporaryDirectory(prefix="verif-clean-e3-") as root:
+        project.materialise(root)
+        owned = {}            # path -> digest of what a step command last wrote
+        prev_graph = {}
+        trace = []
+        phases = [{"edits": []}] + history
+        for i, phase in enumerate(phases):
+            for edit in phase.get("edits", []):
+                e3.apply_edit(project, root, edit)
+            for d in sorted(clean_e3gen.out_dirs(project.program)):
+                os.makedirs(os.path.join(root, d), exist_ok=True)
+            tampered = []
+            if vary:
                 for p in sorted(owned):
                     full = os.path.join(root, p)
-                    if os.path.isfile(full) and rng.random() < 0.12:
+                    if os.path.isfile(full) and trng.random() < 0.12:
                         e3.write_file(full, "user tampered " + p)
                         tampered.append(p)
-                before_files, _, before_dirs = e3.snapshot_tree(root)
-                r = rng.random()
+            before_files, _, before_dirs = e3.snapshot_tree(root)
+            kw = {"clean": True}
+            if vary:
+                r = trng.random()
                 kw = {"clean": r >= 0.12}
                 if 0.12 <= r < 0.22 and owned:
                     kw["targets"] = [sorted(owned)[0]]
-                try:
-                    res = e3.build(root, project.program, env=dict(project.env), resources="tok:2", timeout=120, **kw)
-                except e3.E3Error as exc:
-                    records.append({"seed": seed, "phase": i, "error": str(exc)[:300]})
-                    break
-                graph = e3.parse_graph(res.graph)
-                records.append({"seed": seed, "phase": i, "kw": kw, "rc": res.returncode, "tampered": tampered,
-                                "before_files": before_files, "before_dirs": before_dirs,
-                                "after_files": res.files, "after_dirs": res.dirs, "owned": dict(owned),
-                                "sources": sorted(project.sources), "graph": graph, "prev_graph": prev_graph,
-                                "edits": phase.get("edits", []),
-                                "removed_events": [e[1] for e in res.events if e[0] == "REMOVE"]})
-                for c in res.commands:
-                    for path, digest, _ in c["writes"]:
-                        owned[path] = digest
-                prev_graph = graph
+            trace.append({"edits": _brief_edits(phase.get("edits", [])), "tampered": tampered, "build": kw})
+            try:
+                res = e3.build(root, project.program, env=dict(project.env), resources="tok:2", timeout=120, **kw)
+            except e3.E3Error as exc:
+                records.append({"seed": seed, "family": family, "phase": i, "error": str(exc)[:300]})
+                break
+            graph = e3.parse_graph(res.graph)
+            owned_after = dict(owned)
+            for c in res.commands:
+                for path, digest, _ in c["writes"]:
+                    owned_after[path] = digest
+            trace[-1]["rc"] = res.returncode
+            trace[-1]["executed"] = [c["label"] for c in res.commands]
+            trace[-1]["removed"] = [e[1] for e in res.events if e[0] == "REMOVE"]
+            records.append({"seed": seed, "family": family, "info": info, "phase": i, "kw": kw, "rc": res.returncode,
+                            "tampered": tampered,
+                            "before_files": before_files, "before_dirs": before_dirs,
+                            "after_files": res.files, "after_dirs": res.dirs, "owned": dict(owned),
+                            "owned_after": owned_after,
+                            "sources": sorted(project.sources), "scripts": sorted(project.program.get("scripts", {})),
+                            "graph": graph, "prev_graph": prev_graph,
+                            "edits": phase.get("edits", []), "trace": [dict(t) for t in trace],
+                            "project0": project0 if family != "e3_gen" else None,
+                            "history": history if family != "e3_gen" else None,
+                            "removed_events": [e[1] for e in res.events if e[0] == "REMOVE"]})
+            owned = owned_after
+            prev_graph = graph
+    return records
+
+
+def _brief_edits(edits):
+    out = []
+    for e in edits:
+        if e.get("op") == "program":
+            out.append({"op": "program", "scripts": sorted(e["program"].get("scripts", {}))})
+        else:
+            out.append(e)
+    return out
+
+
+def e3_histories(rng, n, seed_base, family="e3_gen", stats=None):
+    """Run n generated histories of one family; per build a record for the oracles.
+    family "e3_gen": harness/e3_gen.py (one level of sub-plans, globs, scripts, amends, env);
+    family "nested": harness/clean_e3gen.py (plan trees of depth <= 4, see there)."""
+    from . import clean_e3gen, e3_gen
+    records = []
+    for k in range(n):
+        seed = seed_base + k
+        if family == "e3_gen":
+            project, history = e3_gen.gen_case(seed, max_phases=4)
+        else:
+            project, history = clean_e3gen.gen_case(seed, max_phases=5, stats=stats)
+        records.extend(e3_run_case(project, history, seed, family))
+    return records
+
+
+def e3_directed(family, shift, max_depth, full=False):
+    """One directed family of clean_e3gen ("nested-drop" | "static-undeclared"): every shape up to max_depth,
+    variants rotated by `shift`."""
+    from . import clean_e3gen
+    gen = {"nested-drop": clean_e3gen.nested_drop_cases, "static-undeclared": clean_e3gen.undeclare_cases}[family]
+    records = []
+    kw = {"full": True} if full and family == "static-undeclared" else {}
+    for j, (project, history, info) in enumerate(gen(shift, max_depth, **kw)):
+        records.extend(e3_run_case(project, history, j, family, info=info, vary=False))
     return records
 
 
@@ -875,12 +1049,17 @@ def e3_oracle_c06(rec):
         why = "targets" if rec["kw"].get("targets") else ("no-clean" if not rec["kw"].get("clean", True) else "returncode")
         out.append((f"oracle:e3:guard-ignored:{why}", f"guarded build (rc={rec['rc']}, {rec['kw']}) removed {removed} {removed_dirs}"))
         return out
-    srcs = set(rec["sources"])
+    srcs = set(rec["sources"]) | set(rec.get("scripts", ()))
+    owned_after = rec.get("owned_after", rec["owned"])
+    where = f"({rec.get('family', 'e3_gen')} seed {rec['seed']} phase {rec['phase']})"
     for p in removed:
         if p in srcs:
-            out.append(("oracle:e3:removed-file:source", f"{p} is a source file of the project and was removed"))
-        elif p not in rec["owned"]:
-            out.append(("oracle:e3:removed-file:never-written-by-a-step", f"{p} was removed; no step of any earlier build wrote it"))
+            out.append(("oracle:e3:removed-file:source",
+                        f"{p} is a user-provided file of the project (never an output of any step) and was removed {where}"))
+        elif p not in owned_after:
+            out.append(("oracle:e3:removed-file:never-written-by-a-step", f"{p} was removed; no step of any build wrote it {where}"))
+        elif p not in rec["owned"] or owned_after[p] != rec["owned"][p]:
+            continue      # a step (re)wrote it during this very build; its content at removal time is not observed
         elif e3._digest(bf[p]) != rec["owned"][p]:
             st, _ = _gstate(rec["prev_graph"], p)
             if st != "VOLATILE":
@@ -895,35 +1074,131 @@ def e3_oracle_c06(rec):
     return out
 
 
+def _e3_unparen(key):
+    return key[1:-1] if key.startswith("(") and key.endswith(")") else key
+
+
+def _e3_node(graph, ref):
+    k = _e3_unparen(ref)
+    return graph.get(k) or graph.get(f"({k})")
+
+
+def e3_needed_steps(graph):
+    """(attached steps, needed ones) of a parsed canonical graph, from the DECLARED need only: a step is
+    needed when it is not optional or when an attached needed step has one of its outputs as input.
+    Independent of step._implied_need, which the graph text does not show."""
+    steps = {k: v for k, v in graph.items() if k.startswith("step:")}
+    needed = {k for k, v in steps.items() if v["props"].get("need", ["DEFAULT"])[0] != "OPTIONAL"}
+    changed = True
+    while changed:
+        changed = False
+        for k, v in steps.items():
+            if k in needed:
+                continue
+            for f in v["rel"].get("sink", []):
+                fnode = _e3_node(graph, f)
+                if fnode is not None and any(t in needed for t in fnode["rel"].get("sink", [])):
+                    needed.add(k)
+                    changed = True
+                    break
+    return steps, needed
+
+
+def e3_held(graph):
+    """Keys (without parentheses) from which an attached node or a cycle is reachable along product and
+    sink edges of the parsed graph."""
+    succ = {}
+    for k, v in graph.items():
+        succ[_e3_unparen(k)] = {_e3_unparen(x) for x in v["rel"].get("product", []) + v["rel"].get("sink", [])}
+    attached = {k for k in graph if not k.startswith("(")}
+
+    def reach_from(srcs):
+        seen, todo = set(srcs), list(srcs)
+        while todo:
+            x = todo.pop()
+            for y in succ.get(x, ()):
+                if y not in seen:
+                    seen.add(y)
+                    todo.append(y)
+        return seen
+    on_cycle = {k for k in succ if k in reach_from(succ.get(k, ()))}
+    anchors = attached | on_cycle
+    return {k for k in succ if k in anchors or reach_from([k]) & anchors}
+
+
 def e3_oracle_c07(rec):
+    """C07 on one build through serve(): after a successful unrestricted build with cleaning, every file that
+    a step command wrote, that the user did not touch since, and that is (1) no longer a node, (2) a detached
+    output node held by nothing, or (3) an output of an attached optional step that no needed step consumes,
+    is gone from disk; in (2) the node is gone, in (3) it is back to PLANNED; directories emptied by the
+    removals are gone."""
     from . import e3
     out = []
     if "error" in rec:
         return out
     if rec["kw"].get("targets") or not rec["kw"].get("clean", True) or (rec["rc"] & ~8) != 0:
         return out
-    srcs = set(rec["sources"])
+    where = f"({rec.get('family', 'e3_gen')} seed {rec['seed']} phase {rec['phase']})"
+    srcs = set(rec["sources"]) | set(rec.get("scripts", ()))
+    graph = rec["graph"]
+    owned_after = rec.get("owned_after", rec["owned"])
+    steps, needed = e3_needed_steps(graph)
+    held = e3_held(graph)
+    unneeded_out = {}
+    for k, v in steps.items():
+        if k not in needed:
+            for f in v["rel"].get("sink", []):
+                unneeded_out[_e3_unparen(f)] = k
     for p, content in rec["after_files"].items():
-        if p in srcs or p not in rec["owned"] and p not in rec["before_files"]:
-            continue
-        st, det = _gstate(rec["graph"], p)
-        if st is not None:
-            continue      # still a node of the graph: attached output, or held (E2/theorem side)
-        if p not in rec["owned"]:
-            continue      # never written by a step: a user file
-        if e3._digest(rec["before_files"].get(p)) != rec["owned"][p]:
-            continue      # modified by the user: must stay
-        pst, _ = _gstate(rec["prev_graph"], p)
-        if pst in ("BUILT", "OUTDATED", "VOLATILE"):
-            out.append(("oracle:e3:orphan-file-kept",
-                        f"{p} (was {pst}) is unmodified, no longer in the graph, and still on disk (seed {rec['seed']} phase {rec['phase']})"))
+        if p in srcs or p not in owned_after:
+            continue      # a user file
+        if e3._digest(content) != owned_after[p]:
+            continue      # modified by the user after the last step wrote it: must stay
+        if p in rec["before_files"] and p in rec["owned"] and e3._digest(rec["before_files"][p]) != rec["owned"][p] \
+                and owned_after[p] == rec["owned"][p]:
+            continue      # was modified when the build started and no step rewrote it
+        st, det = _gstate(graph, p)
+        if st is None:
+            pst, _ = _gstate(rec["prev_graph"], p)
+            if pst in ("BUILT", "OUTDATED", "VOLATILE"):
+                out.append(("oracle:e3:orphan-file-kept",
+                            f"{p} (was {pst}) is unmodified, no longer in the graph, and still on disk {where}"))
+        elif det:
+            if st in ("BUILT", "OUTDATED", "VOLATILE") and f"file:{p}" not in held:
+                out.append(("oracle:e3:orphan-node-kept",
+                            f"{p} ({st}) is a detached output that nothing holds; node and unmodified file are still there {where}"))
+        elif f"file:{p}" in unneeded_out:
+            step = unneeded_out[f"file:{p}"]
+            out.append(("oracle:e3:unneeded-optional-output-kept",
+                        f"{p} ({st}) is an unmodified output of the optional {step}, which no needed step consumes "
+                        f"(directly or through other optional steps), and it is still on disk {where}"))
+            if st in ("BUILT", "OUTDATED"):
+                out.append(("oracle:e3:unneeded-optional-output-not-reset",
+                            f"{p} is {st} although its optional producer {step} is not needed {where}"))
+    # directories emptied by this build's removals
+    trees = [k[3:] for k in graph if k.startswith("st:")]
+    removed = [p for p in rec["before_files"] if p not in rec["after_files"]]
+    after_dirs = {d.rstrip("/") for d in rec["after_dirs"]}
+    for p in removed:
+        d = os.path.dirname(p)
+        if d and d in after_dirs and not any(q.startswith(d + "/") for q in rec["after_files"]) \
+                and not any(x.startswith(d + "/") for x in after_dirs) \
+                and not any((d + "/").startswith(t) for t in trees):
+            out.append(("oracle:e3:empty-dir-kept", f"{d} became empty by removing {p} and is still there {where}"))
     return out
 
 
 def e3_witness(rec):
-    return {"e3_seed": rec["seed"], "phase": rec["phase"], "build": rec.get("kw"), "rc": rec.get("rc"),
-            "edits": rec.get("edits"), "tampered": rec.get("tampered"), "removed_events": rec.get("removed_events"),
-            "how": "harness.e3_gen.gen_case(seed, max_phases=4) replayed phase by phase with harness.e3.build"}
+    w = {"family": rec.get("family", "e3_gen"), "e3_seed": rec["seed"], "phase": rec["phase"], "build": rec.get("kw"),
+         "rc": rec.get("rc"), "info": rec.get("info"), "trace": rec.get("trace"),
+         "removed_events": rec.get("removed_events"),
+         "how": ("harness.e3_gen.gen_case(seed, max_phases=4)" if rec.get("family", "e3_gen") == "e3_gen" else
+                 "project0 + history below (harness.clean_e3gen)") +
+                " replayed phase by phase by harness.clean_common.e3_run_case (harness.e3.build after each phase)"}
+    if rec.get("project0") is not None:
+        w["project0"] = rec["project0"]
+        w["history"] = rec["history"][:rec["phase"]]
+    return w
 
 
 # ---------------------------------------------------------------------------------------------
@@ -982,6 +1257,120 @@ def rename_witness(rng, volatile=None, third=None, tamper=None):
         b.log.append(["build-3", third])
         return ["cmdA", "cmdB"]
     witness.info = {"old": old, "new": new, "volatile": volatile, "third": third, "tamper": tamper}
+    return witness
+
+
+# ---------------------------------------------------------------------------------------------
+# Directed families at the Workflow level (witness functions for disk_case): a chain of creators
+# plan -> mk1 -> mk2 -> ... (steps creating steps, the way plan scripts call sub-plans)
+# ---------------------------------------------------------------------------------------------
+
+
+def _creator_chain(b, depth):
+    chain = [b.w.plan]
+    for lvl in range(1, depth + 1):
+        st = b.define(chain[-1], f"mk{lvl}", inp=["src.txt"])
+        chain.append(st)
+    return chain
+
+
+def nested_drop_shapes(max_depth=3):
+    for depth in range(1, max_depth + 1):
+        for lp in range(0, depth):
+            for lc in range(lp + 1, depth + 1):
+                for ld in range(lp + 1, lc + 1):
+                    yield depth, lp, lc, ld
+
+
+def nested_drop_witness(depth, lp, lc, ld, k):
+    """A producer declared by creator lp of the chain, its only consumer declared by creator lc > lp, every
+    creator also declares a mandatory bystander; everything is built.  Then creator ld-1 runs again and no longer
+    declares creator ld (lp < ld <= lc): the consumer disappears as a product (lc - ld + 1 levels below the dropped
+    step).  Variants by k: producer optional / mandatory, regular / volatile output, directory, a chain of two
+    optional producers."""
+    optional, volatile, d, two = k % 5 != 4, k % 4 == 3, ["", "d1/", "d1/s/"][k % 3], k % 7 == 5
+
+    def witness(b):
+        b.write("src.txt", "source")
+        b.declare_static(b.w.plan, "src.txt")
+        chain = _creator_chain(b, depth)
+        o = f"{d}o.txt"
+        outs, vols = ([f"{d}o_reg.txt"], [o]) if volatile else ([o], [])
+        b.define(chain[lp], "prod", inp=["src.txt"], out=outs, vol=vols, need=31 if optional else 32)
+        feed = outs[0]
+        if two:
+            b.define(chain[min(lp + 1, lc)], "mid", inp=[feed], out=[f"{d}m.txt"], need=31)
+            feed = f"{d}m.txt"
+        b.define(chain[lc], "cons", inp=[feed], out=["u.txt"])
+        for lvl, c in enumerate(chain):
+            b.define(c, f"by{lvl}", inp=["src.txt"], out=[f"by{lvl}.txt"])
+        labels = [x for x in b.steps]
+        b.complete_all(labels)
+        b.meta()
+        b.log.append(["build-1 complete"])
+        dropped = chain[ld].label
+        b.rerun(chain[ld - 1], keep_step=lambda inf: str(inf.command) != dropped)
+        b.log.append([f"build-2: {chain[ld - 1].label} ran again and no longer creates", dropped])
+        return labels
+    witness.info = {"family": "nested-drop", "depth": depth, "producer_level": lp, "consumer_level": lc,
+                    "dropped_level": ld, "optional": optional, "volatile": volatile, "dir": d, "two_optional": two}
+    return witness
+
+
+def undeclared_shapes(max_depth=2):
+    for depth in range(0, max_depth + 1):
+        for ls in range(0, depth + 1):
+            for lc in range(0, depth + 1):
+                yield depth, ls, lc
+
+
+def undeclared_witness(depth, ls, lc, k):
+    """Build 1: creator ls declares the user's file F static, a step declared by creator lc reads it.  Build 2:
+    creator ls runs again without the static() line while the consumer is declared again (same command, a new
+    command, or with one more input): F becomes UNDECLARED and keeps the hash recorded while CONFIRMED; the build
+    cannot complete.  Build 3: the consumer is dropped or stops using F; nothing declares or uses F any more."""
+    second = ["same", "new-step", "redefined"][k % 3]
+    third = ["drop-consumer", "stop-using"][(k // 3) % 2]
+    where = ["inp.txt", "d1/inp.txt"][k % 2]
+
+    def witness(b):
+        b.write("src.txt", "source")
+        b.write(where, "user data " + where)
+        b.declare_static(b.w.plan, "src.txt")
+        chain = _creator_chain(b, depth)
+        b.declare_static(chain[ls], where)
+        b.define(chain[lc], "cons", inp=[where], out=["y.txt"])
+        for lvl, c in enumerate(chain):
+            b.define(c, f"by{lvl}", inp=["src.txt"], out=[f"by{lvl}.txt"])
+        labels = [x for x in b.steps]
+        b.complete_all(labels)
+        b.meta()
+        b.log.append(["build-1 complete"])
+        # build 2
+        name = {"same": "cons", "new-step": "cons2", "redefined": "cons"}[second]
+
+        def change2(kw):
+            if kw["command"] == "cons":
+                kw = dict(kw, command=name)
+                if second == "redefined":
+                    kw["inp"] = sorted(set(kw["inp"]) | {"src.txt"})
+            return kw
+        for lvl in sorted({ls, lc}):
+            b.rerun(chain[lvl], keep_static=lambda p: p != where, change=change2 if lvl == lc else (lambda kw: kw))
+        b.meta()
+        b.log.append(["build-2 (incomplete):", where, "lost its static() line;", name, "still names it as input"])
+        # build 3
+
+        def change3(kw):
+            if kw["command"] == name:
+                kw = dict(kw, inp=[x for x in kw["inp"] if x != where] or ["src.txt"])
+            return kw
+        b.rerun(chain[lc], keep_step=(lambda inf: str(inf.command) != name) if third == "drop-consumer" else (lambda inf: True),
+                change=change3 if third == "stop-using" else (lambda kw: kw))
+        b.log.append(["build-3:", third])
+        return labels + [name]
+    witness.info = {"family": "static-undeclared", "depth": depth, "declared_level": ls, "consumer_level": lc,
+                    "second_build": second, "third_build": third, "file": where}
     return witness
 
 
